@@ -2,10 +2,15 @@
 import c20
 import c19
 import life
+import comm
 
 CHECKS = {
     "C20": c20.check,
     "C19": c19.check,
+    "C01": comm.check,
+    "C02": comm.check,
+    "C03": comm.check,
+    "C04": comm.check,
     "C09": life.check,
     "C10": life.check,
     "C11": life.check,
